@@ -423,6 +423,9 @@ class Exec(StmtMixin, CallMixin):
                 self.emit(st, "bounds", "L%d" % getattr(node, "lineno", 0), g, node,
                           "index %s of %s within [0,%s)" % (ni, arr_name, n))
                 st.assume(g)
+            if z3.is_expr(ni) and self.opt("witness_marks", False) and hasattr(self, "witness_mark"):
+                # every index the code actually uses is a candidate witness for the existentials of the specification
+                st.assume(self.witness_mark(ni))
         return ni
 
     def proved_quick(self, st, goal):
